@@ -37,6 +37,15 @@ Section Sched.
   Variable step : state -> tid -> state.
   Definition run (sched : list tid) (s : state) : state := fold_left step sched s.
 
+
+  (* weak fairness, finitely: a schedule is made of n fair segments when each segment gives a turn
+     to every thread that is enabled (does not stutter) in the state at which the segment starts *)
+  Inductive fair_rounds : nat -> state -> list tid -> Prop :=
+  | fr_0 : forall s sched, fair_rounds 0 s sched
+  | fr_S : forall n s seg rest,
+      (forall t, step s t <> s -> In t seg) ->
+      fair_rounds n (run seg s) rest ->
+      fair_rounds (S n) s (seg ++ rest).
 End Sched.
 
 (* events of the observable log; all numbers are nat (indices, small block numbers) *)
